@@ -73,9 +73,22 @@ def cases(shard, rnd):
             for n in list(range(0, 6)) + list(range(limit - 3, limit + 4)) \
                     + [200, 255, 256, 257, 300, 1000]:
                 for ch in ('a', '-', ' ', 'é'):
-                    for phase in ('construct', 'mutate'):
+                    for phase in ('construct', 'mutate', 'mutate-decoded'):
                         yield {'t': 'name', 'method': m, 'arg': a,
                                'v': ch * n, 'phase': phase}
+        # names as they occur in the wild, with the OTHER arguments varied
+        real = ['amq.topic', 'amq.direct', 'amq.fanout', 'amq.headers',
+                'amq.match', 'amq.rabbitmq.trace', 'amq.gen-JzTY20BRgKO-Hj',
+                'amq.', 'AMQ.x', 'my-queue', 'a.b.c', 'x:y@z', 'q/1,2 3',
+                '#', '.', ' ', 'celery', 'tasks_high', 'rpc.reply-123']
+        for m, a, kind in NAME_ARGS:
+            spec = refspec.BY_NAME[m]
+            for v in real:
+                for k in range(3):
+                    others = gf.assignment(rnd, spec)
+                    others[a] = v
+                    yield {'t': 'full', 'method': m, 'arg': a, 'v': v,
+                           'vals': others}
     elif w == 'fixed':
         for m, a, fixed in FIXED_ARGS:
             if isinstance(fixed, bool):
@@ -166,7 +179,23 @@ def _decide(spec, cls, arg, v, phase):
         if c.ok:
             return 'accepted'
         return c.exc_type or 'budget'
-    c = call(cls)
+    if phase == 'mutate-decoded':
+        # the object came from the decoder (or was used as a decode target)
+        vals = {}
+        for n, t, d in spec.args:
+            vals[n] = (False if t == 'bit' else {} if t == 'table' else
+                       0 if t in ('octet', 'short', 'long', 'longlong')
+                       else ('0' if d == '0' else ''))
+        u = common.lib_unmarshal(refcodec.enc_method(spec.index, vals, 1))
+        if not u.ok:
+            return 'decode-failed'
+
+        class _C:
+            ok = True
+            value = u.value[2]
+        c = _C
+    else:
+        c = call(cls)
     if not c.ok:
         return 'default-construct-failed'
     try:
@@ -219,6 +248,30 @@ def _short(v):
 
 def run_case(case, rec):
     t = case['t']
+    if t == 'full':
+        rec.ev()
+        spec = refspec.BY_NAME[case['method']]
+        cls = boundary.lib_class_for(spec.index)
+        vals = case['vals']
+        c = call(cls, **vals)
+        out = 'accepted' if c.ok else (c.exc_type or 'budget')
+        rec.nt(canon.digest(('full', case['method'], vals)))
+        flat = {k: v for k, v in vals.items()
+                if isinstance(v, (str, int, bool))}
+        broken = refspec.violates(spec.name, flat)
+        if broken and out != 'ValueError':
+            rec.violation('not-refused:full-assignment',
+                          '%s(**%s) breaks a constraint but %s'
+                          % (spec.name, _short(flat), out), case)
+        elif not broken and out == 'ValueError':
+            rec.violation('refused-valid:full-assignment',
+                          '%s(**%s) satisfies every constraint but raised '
+                          'ValueError: %s' % (spec.name, _short(flat),
+                                              c.describe()[:120]), case)
+        else:
+            rec.count('decisions_agree')
+            rec.count('full_assignments_decided')
+        return
     if t in ('name', 'fixed'):
         rec.ev()
         spec = refspec.BY_NAME[case['method']]
